@@ -1289,6 +1289,11 @@ package server
 //@   at call cancel#1 before
 //@     assert [C09:lease-cancelled-only-for-the-sync-that-owns-it] ds.fullSyncStarted && fullSyncID == ds.fullSyncID
 
+// the lease timer (a goroutine): when the lease expires without a refresh the sync is abandoned completely - state, seen
+// set, id AND the lease itself (ReleaseFullSyncLease tells an abandoned sync from a running one by the lease alone)
+//@ unit (*Dataset).RefreshFullSyncLease$1
+//@   prop C09 C08
+//@   ensures [C09,C08:an-expired-lease-leaves-no-lease-behind-so-a-late-end-request-cannot-complete-the-abandoned-sync] !ds.fullSyncStarted ==> ds.fullSyncLease == nil || old(!ds.fullSyncStarted)
 //@ unit (*Dataset).StartFullSyncWithLease
 //@   prop C09
 //@   preserves Dataset.store, Dataset.ID, Dataset.InternalID, Store.*, map[uint64]int
